@@ -263,3 +263,31 @@ def _seq_units(seq):
                 return all(walk(c) for c in t.children())
         return False
     return out if walk(s) else None
+
+
+def forall(vs, body, patterns=()):
+    """ForAll with patterns when z3 accepts them (a pattern may beta-reduce to a non-pattern term)"""
+    pats = []
+    for p in patterns:
+        if z3.is_app(p) and p.decl().kind() in (z3.Z3_OP_SELECT, z3.Z3_OP_UNINTERPRETED) and not _has_lambda(p):
+            pats.append(p)
+    if pats and len(pats) == len(list(patterns)):
+        try:
+            return z3.ForAll(vs, body, patterns=pats)
+        except z3.Z3Exception:
+            pass
+    return z3.ForAll(vs, body)
+
+
+def _has_lambda(t):
+    stack = [t]
+    seen = set()
+    while stack:
+        x = stack.pop()
+        if z3.is_quantifier(x):
+            return True
+        if x.get_id() in seen:
+            continue
+        seen.add(x.get_id())
+        stack.extend(x.children())
+    return False
